@@ -178,10 +178,13 @@ that name and, with the literal's bias, one of the row's admissible exact scales
 theorem C05_table (lit : List Char) (k : UnitKey) (bias : Int)
     (hm : (lit, WordAction.unit k bias) ∈ allRows) (hk : lit ∉ deviating) :
     Admissible lit k bias := by
-  have h : allRows.all (fun r => match r.2 with
+  have h1 : Generated.unitsOnly.all (fun r => match r.2 with
       | .unit k b => deviating.contains r.1 || admissible r.1 k b
       | _ => true) = true := by decide +kernel
-  have := List.all_eq_true.mp h _ hm
+  have h2 : Generated.combined.all (fun r => match r.2 with
+      | .unit k b => deviating.contains r.1 || admissible r.1 k b
+      | _ => true) = true := by decide +kernel
+  have := (List.mem_append.mp hm).elim (List.all_eq_true.mp h1 _) (List.all_eq_true.mp h2 _)
   simp only [Bool.or_eq_true, List.contains_iff_mem] at this
   rcases this with h1 | h1
   · exact absurd h1 hk
@@ -302,11 +305,14 @@ theorem C05_pinned_all_deviate :
     | unit k b => exact ⟨k, b, hm⟩
     | pfx _ _ => simp at ha
     | sep => simp at ha
-  · have h : allRows.all (fun r => match r.2 with
+  · have h1 : Generated.unitsOnly.all (fun r => match r.2 with
+        | .unit k b => !deviating.contains r.1 || !admissible r.1 k b
+        | _ => true) = true := by decide +kernel
+    have h2 : Generated.combined.all (fun r => match r.2 with
         | .unit k b => !deviating.contains r.1 || !admissible r.1 k b
         | _ => true) = true := by decide +kernel
     intro lit k b hm hd hA
-    have := List.all_eq_true.mp h _ hm
+    have := (List.mem_append.mp hm).elim (List.all_eq_true.mp h1 _) (List.all_eq_true.mp h2 _)
     simp only [Bool.or_eq_true, Bool.not_eq_true', List.contains_eq_mem, decide_eq_false_iff_not] at this
     rcases this with h1 | h1
     · exact h1 hd
